@@ -9,7 +9,8 @@ CONSTANTS
   Ks = {1, 2, 3}
   Fuel = 3
   Detail = FALSE
+  OldReadLimit = FALSE
   WakeAll = TRUE
 SPECIFICATION FairSpec
-INVARIANTS ReadFifo WriteFifo WriteLimit ReadLimit LimitReported RWakeCover WWakeCover Sane
+INVARIANTS ReadFifo WriteFifo WriteLimit ReadLimitStrict LimitReported RWakeCover WWakeCover Sane
 PROPERTY Woken
